@@ -51,7 +51,27 @@ type attrSchema struct {
 	elem     fkind // element kind of lists / maps
 	bits     int
 	owner    *structSchema
+	pinned   bool // required according to the pinned table below, whatever the tag says now
 }
+
+// pinnedRequired lists the settings that are required inside a present block in the
+// profile format as shipped (struct name -> yaotl attribute names).  The generator follows
+// the tags of the real type; oracle B additionally insists that these stay required, so
+// that a tag that silently turns one of them optional is noticed.  Settings added later
+// are judged by their tag alone.
+var pinnedRequired = map[string][]string{
+	"ServerProfile":        {"Host", "Port"},
+	"UsersBlock":           {"Password"},
+	"ServiceConfig":        {"Endpoint", "Password"},
+	"WebHookDiscordConfig": {"Url"},
+	"ListenerHTTP":         {"Name", "Hosts", "HostBind", "HostRotation", "PortBind"},
+	"ListenerSMB":          {"Name", "PipeName"},
+	"ListenerExternal":     {"Name", "Endpoint"},
+	"ListenerHttpProxy":    {"Host", "Port"},
+	"ListenerHttpCerts":    {"Cert", "Key"},
+}
+
+func (a *attrSchema) required() bool { return !a.optional || a.pinned }
 
 type blockSchema struct {
 	name   string
@@ -115,6 +135,11 @@ func schemaOf(t reflect.Type) *structSchema {
 		switch kind {
 		case "attr", "optional":
 			a := &attrSchema{name: name, goName: f.Name, idx: i, optional: kind == "optional", typ: f.Type, owner: ss}
+			for _, n := range pinnedRequired[t.Name()] {
+				if n == name {
+					a.pinned = true
+				}
+			}
 			switch f.Type.Kind() {
 			case reflect.Slice:
 				a.kind = kList
